@@ -77,9 +77,12 @@ class World(object):
         self.sim_time = 0.0       # simulated solver time covered
         self.sched_steps = 0
         self.keep_events = False
+        self.muted = 0            # >0: inside cached harness work, no logging
 
     # -- logging (never draws from the PRNG) ---------------------------------
     def log(self, *parts):
+        if self.muted:
+            return
         line = '|'.join(fhex(p) for p in parts)
         self.hash.update(line.encode())
         self.hash.update(b'\n')
